@@ -240,59 +240,78 @@ theorem mergeBefore_eq (l : List PreConf) (lo b : Nat) (d : Diff) (c : AMap Felt
       rw [e1, List.take_succ_cons]
       simp
 
-/-- on a view of a well-formed, consistent chain: the state before index `len(txs)` of a block is
-the state at that block -/
-theorem stateBeforeIndex_end {s : Store} (h : StoreWF s) (hok : AllOK s) (head b : Nat)
-    (baseAt : Nat → Base) :
+/-- the overlay `PreConfirmedStateBeforeIndexAt(b, k)` builds: the view's blocks older than `b`
+merged, then the first `k` per-transaction diffs of block `b`; classes of the older blocks and ALL
+classes of block `b` -/
+def overlayBefore (older : List PreConf) (target : PreConf) (k : Nat) (head : Base) (bn : Nat) : PState :=
+  { diff := (target.txDiffs.take k).foldl Diff.merge ((older.map (·.diff)).foldl Diff.merge Diff.empty)
+    classes := mergeClassesInto ((older.map (·.classes)).foldl mergeClassesInto []) target.classes
+    head := head, blockNumber := bn }
+
+/-- `PreConfirmedStateBeforeIndexAt` on a reader's view, for EVERY index: not found outside the
+view; inside it, with `e` the view's block `b`: out of bounds for `k > len(txs)`, else the base
+error if the base is unavailable, else `overlayBefore`. -/
+theorem stateBeforeIndexAt_spec {s : Store} (h : StoreWF s) (head b k : Nat)
+    (baseAt : Nat → Option Base) :
     let v := snapshotFor s (head + 1)
-    (head + 1 ≤ b ∧ b ≤ head + v.length) →
-    ∃ e p, e ∈ v.newestFirst ∧ e.number = b ∧ stateAt v b baseAt = some p ∧
-      stateBeforeIndexAt v b e.txs.length baseAt = .ok p := by
+    ((head + 1 ≤ b ∧ b ≤ head + v.length) →
+      ∃ e, v.oldestFirst[b - (head + 1)]? = some e ∧ e.number = b ∧
+        stateBeforeIndexAt v b k baseAt =
+          if k > e.txs.length then .error .indexOutOfBounds
+          else match baseAt head with
+            | none => .error .noBase
+            | some base => .ok (overlayBefore (v.oldestFirst.take (b - (head + 1))) e k base b)) ∧
+    (¬ (head + 1 ≤ b ∧ b ≤ head + v.length) → stateBeforeIndexAt v b k baseAt = .error .notFound) := by
   have A := snapshot_view h head
   have B := snapshot_spec h (head + 1)
-  have C : ∀ e ∈ (snapshotFor s (head + 1)).newestFirst, EntryOK e := by
-    intro e he
-    cases s with
-    | none => simp [snapshotFor, Reader.empty, Reader.newestFirst] at he
-    | some cur =>
-      simp only [snapshotFor] at he
-      split at he
-      · simp [Reader.empty, Reader.newestFirst] at he
-      · exact hok e (List.mem_of_mem_take he)
   dsimp only at A B ⊢
-  generalize snapshotFor s (head + 1) = v at A B C ⊢
+  generalize snapshotFor s (head + 1) = v at A B ⊢
   obtain ⟨hv1, hv2⟩ := A
   obtain ⟨hs1, hs2⟩ := B
-  intro hb
-  have hc : v.contains b = true := (hv2 b).mpr hb
-  have hpos : 0 < v.length := by omega
-  obtain ⟨ho, _⟩ := hv1 hpos
-  have hlen : v.oldestFirst.length = v.length := by
-    rw [Reader.oldestFirst_eq, List.length_reverse]; exact hs1
-  have hnum : v.oldestFirst.map (·.number) = List.range' (head + 1) v.oldestFirst.length := by
-    rw [hlen]; exact hs2
-  have hlt : b < head + 1 + v.oldestFirst.length := by rw [hlen]; omega
-  have hm := mergeThrough_eq v.oldestFirst (head + 1) b Diff.empty [] hnum hb.1 hlt
-  obtain ⟨tg, hget, htn, hmb⟩ := mergeBefore_eq v.oldestFirst (head + 1) b Diff.empty [] hnum hb.1 hlt
-  have hmem : tg ∈ v.newestFirst := by
-    have : tg ∈ v.oldestFirst := List.mem_of_getElem? hget
-    rw [Reader.oldestFirst_eq] at this
-    exact List.mem_reverse.mp this
-  have hok' := C tg hmem
-  refine ⟨tg, overlayOf (v.oldestFirst.take (b - (head + 1) + 1)) (baseAt (v.oldest - 1)) b,
-    hmem, htn, ?_, ?_⟩
-  · simp only [stateAt, hc, Bool.not_true, Bool.false_eq_true, ↓reduceIte, hm]
-    rfl
-  · simp only [stateBeforeIndexAt, hc, Bool.not_true, Bool.false_eq_true, ↓reduceIte, hmb,
-      Nat.lt_irrefl, gt_iff_lt]
-    have etake : v.oldestFirst.take (b - (head + 1) + 1) =
-        v.oldestFirst.take (b - (head + 1)) ++ [tg] := by
-      rw [List.take_add_one, hget]; rfl
-    have e1 : tg.txDiffs.take tg.txs.length = tg.txDiffs := by
-      rw [← hok'.ndiffs]; exact List.take_length
-    rw [etake, e1]
-    simp only [overlayOf, List.map_append, List.map_cons, List.map_nil, List.foldl_append,
-      List.foldl_cons, List.foldl_nil]
-    rw [hok'.diff, merge_mergeAll]
+  constructor
+  · intro hb
+    have hc : v.contains b = true := (hv2 b).mpr hb
+    have hpos : 0 < v.length := by omega
+    obtain ⟨ho, _⟩ := hv1 hpos
+    have hlen : v.oldestFirst.length = v.length := by
+      rw [Reader.oldestFirst_eq, List.length_reverse]; exact hs1
+    have hnum : v.oldestFirst.map (·.number) = List.range' (head + 1) v.oldestFirst.length := by
+      rw [hlen]; exact hs2
+    have hlt : b < head + 1 + v.oldestFirst.length := by rw [hlen]; omega
+    obtain ⟨tg, hget, htn, hmb⟩ := mergeBefore_eq v.oldestFirst (head + 1) b Diff.empty [] hnum hb.1 hlt
+    refine ⟨tg, hget, htn, ?_⟩
+    simp only [stateBeforeIndexAt, hc, Bool.not_true, Bool.false_eq_true, ↓reduceIte, hmb, ho, pred64_succ]
+    split
+    · rfl
+    · cases baseAt head with
+      | none => rfl
+      | some base => rfl
+  · intro hb
+    have hc : v.contains b = false := by
+      cases hcc : v.contains b with
+      | false => rfl
+      | true => exact absurd ((hv2 b).mp hcc) hb
+    simp [stateBeforeIndexAt, hc]
+
+/-- with a consistent entry, the overlay before index `len(txs)` is the overlay at the block -/
+theorem overlayBefore_end (older : List PreConf) (e : PreConf) (he : EntryOK e) (head : Base) (bn : Nat) :
+    overlayBefore older e e.txs.length head bn = overlayOf (older ++ [e]) head bn := by
+  have e1 : e.txDiffs.take e.txs.length = e.txDiffs := by
+    rw [← he.ndiffs]; exact List.take_length
+  simp only [overlayBefore, overlayOf, e1, List.map_append, List.map_cons, List.map_nil,
+    List.foldl_append, List.foldl_cons, List.foldl_nil]
+  rw [he.diff, merge_mergeAll]
+
+/-- every entry of a view of a consistent store is consistent -/
+theorem view_entries_ok {s : Store} (hok : AllOK s) (b : Nat) :
+    ∀ e ∈ (snapshotFor s b).newestFirst, EntryOK e := by
+  intro e he
+  cases s with
+  | none => simp [snapshotFor, Reader.empty, Reader.newestFirst] at he
+  | some cur =>
+    simp only [snapshotFor] at he
+    split at he
+    · simp [Reader.empty, Reader.newestFirst] at he
+    · exact hok e (List.mem_of_mem_take he)
 
 end Juno.C20
